@@ -1095,15 +1095,6 @@ def _worklist_variant(w: ast.While, fi: FunctionInfo, test: ast.expr) -> str | N
             if isinstance(c, ast.Assign) and len(c.targets) == 1 and isinstance(c.targets[0], ast.Name) and isinstance(c.value, ast.Call) and _shrinks(c.value, nm)
         }
         grow_calls = [c for c in ast.walk(w) if isinstance(c, ast.Call) and isinstance(c.func, ast.Attribute) and c.func.attr in _GROWERS and unparse(c.func.value) == nm]
-        other = [
-            c
-            for c in ast.walk(w)
-            if (isinstance(c, ast.Name) and c.id == nm and isinstance(c.ctx, (ast.Store, ast.Del)))
-            or (isinstance(c, ast.AugAssign) and isinstance(c.target, ast.Name) and c.target.id == nm)
-            or (isinstance(c, ast.Subscript) and isinstance(c.ctx, ast.Store) and isinstance(c.value, ast.Name) and c.value.id == nm)
-        ]
-        if not grow_calls or other or not popped:
-            continue
 
         def children_of_popped(e: ast.expr) -> bool:
             if isinstance(e, ast.BoolOp) and isinstance(e.op, ast.Or):
@@ -1112,6 +1103,20 @@ def _worklist_variant(w: ast.While, fi: FunctionInfo, test: ast.expr) -> str | N
                 return children_of_popped(e.args[0])
             return isinstance(e, ast.Attribute) and e.attr == "children" and isinstance(e.value, ast.Name) and e.value.id in popped
 
+        # other ways to add: `todo[:0] = x.children` / `todo[i:i] = ..` (slice insertion) and `todo += x.children`
+        grow_stmts = []
+        other = []
+        for c in ast.walk(w):
+            if isinstance(c, ast.Assign) and len(c.targets) == 1 and isinstance(c.targets[0], ast.Subscript) and isinstance(c.targets[0].value, ast.Name) and c.targets[0].value.id == nm:
+                (grow_stmts if isinstance(c.targets[0].slice, ast.Slice) and children_of_popped(c.value) else other).append(c)
+            elif isinstance(c, ast.AugAssign) and isinstance(c.target, ast.Name) and c.target.id == nm:
+                (grow_stmts if isinstance(c.op, ast.Add) and children_of_popped(c.value) else other).append(c)
+            elif isinstance(c, ast.Name) and c.id == nm and isinstance(c.ctx, (ast.Store, ast.Del)) and not isinstance(parent(c), ast.AugAssign):
+                other.append(c)
+            elif isinstance(c, ast.Delete) and any(isinstance(t_, ast.Subscript) and isinstance(t_.value, ast.Name) and t_.value.id == nm for t_ in c.targets):
+                pass  # deletions only shrink
+        if not (grow_calls or grow_stmts) or other or not popped:
+            continue
         if all(c.func.attr in ("extend", "extendleft") and len(c.args) == 1 and children_of_popped(c.args[0]) for c in grow_calls):
             return f"tree worklist on {nm}: every cyclic path removes one element; only the children of the removed element are added (finite tree)"
     return None
@@ -1201,7 +1206,8 @@ def _loop_variant(w: ast.While, fi: FunctionInfo, corpus: Corpus) -> str | None:
         if sliced and refound:
             return f"find-then-slice: {buf} shrinks by at least one byte per iteration"
     # eof flag set by read
-    if isinstance(test, ast.UnaryOp) and isinstance(test.op, ast.Not) and unparse(test.operand) == "self.eof":
+    conj_ = test.values if isinstance(test, ast.BoolOp) and isinstance(test.op, ast.And) else [test]
+    if any(isinstance(t_, ast.UnaryOp) and isinstance(t_.op, ast.Not) and unparse(t_.operand) == "self.eof" for t_ in conj_):
         g = get_callgraph(corpus)
         reach = g.reachable([fi]) if False else None
         # every iteration calls read_buffer directly or through readline
@@ -1541,6 +1547,34 @@ def _inside_broad_try(use: ast.AST, mapping_use: bool) -> bool:
     return False
 
 
+def _normalised_before(fi: FunctionInfo, cfg, var: str, use_stmt) -> bool:
+    """A dominating ``if not isinstance(var, T): ...; var = <literal of type T>`` (no else, the branch falls through):
+    after it ``var`` is a T on every path; nothing re-binds it between that statement and the use."""
+    lit_types = {ast.Dict: "dict", ast.List: "list", ast.Tuple: "tuple", ast.Set: "set"}
+    for I in fi.local_nodes():
+        if not (isinstance(I, ast.If) and not I.orelse and I.body):
+            continue
+        t = I.test
+        if not (isinstance(t, ast.UnaryOp) and isinstance(t.op, ast.Not) and isinstance(t.operand, ast.Call) and dotted(t.operand.func) == "isinstance" and len(t.operand.args) == 2 and unparse(t.operand.args[0]) == var):
+            continue
+        types = t.operand.args[1].elts if isinstance(t.operand.args[1], ast.Tuple) else [t.operand.args[1]]
+        tnames = {(dotted(x) or "").split(".")[-1] for x in types}
+        stores = [x for b in I.body for x in ast.walk(b) if isinstance(x, ast.Assign) and len(x.targets) == 1 and isinstance(x.targets[0], ast.Name) and x.targets[0].id == var]
+        if not stores or isinstance(I.body[-1], (ast.Return, ast.Raise, ast.Continue, ast.Break)):
+            continue
+        last = stores[-1].value
+        lt = lit_types.get(type(last)) or ((dotted(last.func) if isinstance(last, ast.Call) and not last.args and not last.keywords else None))
+        if lt not in tnames:
+            continue
+        if not (cfg.dominates(I, use_stmt) and I is not use_stmt):
+            continue
+        later = [x for x in fi.local_nodes() if isinstance(x, ast.Name) and x.id == var and isinstance(x.ctx, (ast.Store, ast.Del)) and I.end_lineno < x.lineno < getattr(use_stmt, "lineno", 10**9)]
+        if later:
+            continue
+        return True
+    return False
+
+
 def _check_narrowed(corpus: Corpus, fi: FunctionInfo, var: str, assign: ast.AST, scope: ast.AST, rep: Report) -> None:
     cfg = get_cfg(fi)
     uses = []
@@ -1582,6 +1616,9 @@ def _check_narrowed(corpus: Corpus, fi: FunctionInfo, var: str, assign: ast.AST,
         ok = any(pol and isinstance(t, ast.Call) and dotted(t.func) == "isinstance" and t.args and unparse(t.args[0]) == var for t, pol in gs)
         if ok:
             how.add(f"isinstance({var}, ...)")
+            continue
+        if _normalised_before(fi, cfg, var, st):
+            how.add(f"`if not isinstance({var}, T): {var} = <T literal>` normalises it first")
             continue
         is_mapping_use = isinstance(u, ast.Dict) or isinstance(parent(u), ast.keyword)
         if _inside_broad_try(u, is_mapping_use):
@@ -2758,16 +2795,18 @@ def r16_settings_attributes(corpus: Corpus, rep: Report, tier: str):
 _NONNEG_CONVERTERS = ("nonnegative_int", "positive_int")
 
 
-def _nonneg(corpus: Corpus, e: ast.expr | None, fi: FunctionInfo, attr: str, depth: int = 0) -> tuple[str, str, ast.AST | None]:
+def _nonneg(corpus: Corpus, e: ast.expr | None, fi: FunctionInfo, attr: str, depth: int = 0, none_ok: bool = False) -> tuple[str, str, ast.AST | None]:
     """('ok'|'bad'|'unknown', reason, node)"""
     if e is None or depth > 4:
         return ("unknown", "no value", e)
+    if none_ok and isinstance(e, ast.Constant) and e.value is None:
+        return ("ok", "None is not stored (the store is under `is not None`)", e)
     if isinstance(e, ast.Constant) and isinstance(e.value, int) and not isinstance(e.value, bool):
         return ("ok", "constant", e) if e.value >= 0 else ("bad", f"the constant {e.value} is negative", e)
     if isinstance(e, ast.UnaryOp) and isinstance(e.op, ast.USub) and isinstance(e.operand, ast.Constant) and isinstance(e.operand.value, (int, float)):
         return ("ok", "constant", e) if e.operand.value == 0 else ("bad", f"the constant -{e.operand.value} is negative", e)
-    if isinstance(e, ast.Attribute) and isinstance(e.value, ast.Name) and e.value.id == "self" and e.attr == attr:
-        return ("ok", "the offset itself", e)
+    if isinstance(e, ast.Attribute) and e.attr == attr:
+        return ("ok", "the offset itself (non-negative by induction over its stores)", e)
     if isinstance(e, ast.Call) and dotted(e.func) in ("abs", "len"):
         return ("ok", dotted(e.func), e)
     if isinstance(e, ast.Call) and dotted(e.func) == "max" and any(isinstance(a, ast.Constant) and isinstance(a.value, int) and a.value >= 0 for a in e.args):
@@ -2781,7 +2820,7 @@ def _nonneg(corpus: Corpus, e: ast.expr | None, fi: FunctionInfo, attr: str, dep
         key = e.slice.value
     if key is not None:
         if dflt is not None:
-            st, why, nd = _nonneg(corpus, dflt, fi, attr, depth + 1)
+            st, why, nd = _nonneg(corpus, dflt, fi, attr, depth + 1, none_ok)
             if st != "ok":
                 return (st, f"default of options.get({key!r}): {why}", nd)
         convs = []
@@ -2806,7 +2845,7 @@ def _nonneg(corpus: Corpus, e: ast.expr | None, fi: FunctionInfo, attr: str, dep
     if isinstance(e, ast.Name) and not fi.is_lambda:
         bound_here = e.id in fi.params or any(isinstance(x, ast.Name) and x.id == e.id and isinstance(x.ctx, ast.Store) for x in fi.local_nodes())
         if not bound_here and fi.parent_func is not None:
-            return _nonneg(corpus, e, fi.parent_func, attr, depth + 1)  # a variable of the enclosing function
+            return _nonneg(corpus, e, fi.parent_func, attr, depth + 1, none_ok)  # a variable of the enclosing function
         if e.id in fi.params and not _rebound(fi, e.id):
             a = fi.node.args
             defaults: dict[str, ast.expr] = {}
@@ -2819,7 +2858,7 @@ def _nonneg(corpus: Corpus, e: ast.expr | None, fi: FunctionInfo, attr: str, dep
             g = get_callgraph(corpus)
             sites = g.callers().get(fi.fq, [])
             if e.id in defaults:
-                st, why, nd = _nonneg(corpus, defaults[e.id], fi, attr, depth + 1)
+                st, why, nd = _nonneg(corpus, defaults[e.id], fi, attr, depth + 1, none_ok)
                 if st != "ok":
                     return (st, f"default of parameter {e.id}: {why}", nd)
             elif not sites:
@@ -2832,7 +2871,7 @@ def _nonneg(corpus: Corpus, e: ast.expr | None, fi: FunctionInfo, attr: str, dep
                 for k in call.keywords:
                     bound[k.arg] = k.value
                 if e.id in bound:
-                    st, why, nd = _nonneg(corpus, bound[e.id], caller, attr, depth + 1)
+                    st, why, nd = _nonneg(corpus, bound[e.id], caller, attr, depth + 1, none_ok)
                     if st != "ok":
                         return (st, f"{caller.qualname} passes `{short(bound[e.id], 50)}`: {why}", nd if nd is not None else call)
             return ("ok", "every caller passes a non-negative value", e)
@@ -2840,12 +2879,12 @@ def _nonneg(corpus: Corpus, e: ast.expr | None, fi: FunctionInfo, attr: str, dep
         others = [n for n in fi.local_nodes() if isinstance(n, ast.Name) and n.id == e.id and isinstance(n.ctx, ast.Store) and not (isinstance(parent(n), ast.Assign) and len(parent(n).targets) == 1)]
         if defs and not others:
             for d in defs:
-                st, why, nd = _nonneg(corpus, d, fi, attr, depth + 1)
+                st, why, nd = _nonneg(corpus, d, fi, attr, depth + 1, none_ok)
                 if st != "ok":
                     return (st, why, nd)
             return ("ok", "every binding is non-negative", e)
     if isinstance(e, ast.BinOp) and isinstance(e.op, ast.Add):
-        l, r = _nonneg(corpus, e.left, fi, attr, depth + 1), _nonneg(corpus, e.right, fi, attr, depth + 1)
+        l, r = _nonneg(corpus, e.left, fi, attr, depth + 1, none_ok), _nonneg(corpus, e.right, fi, attr, depth + 1, none_ok)
         if l[0] == "ok" and r[0] == "ok":
             return ("ok", "sum of non-negative values", e)
         return l if l[0] != "ok" else r
@@ -2897,7 +2936,13 @@ def r14_heading_offset(corpus: Corpus, rep: Report, tier: str):
                     continue
                 n += 1
                 k = f"{f.fq}|self.{attr} = {short(st.value, 40)}"
-                status, why, nd = _nonneg(corpus, st.value, f, attr)
+                none_ok = isinstance(st.value, ast.Name) and any(
+                    isinstance(t_, ast.Compare) and len(t_.ops) == 1 and isinstance(t_.left, ast.Name) and t_.left.id == st.value.id
+                    and isinstance(t_.comparators[0], ast.Constant) and t_.comparators[0].value is None
+                    and ((isinstance(t_.ops[0], ast.IsNot) and pol_) or (isinstance(t_.ops[0], ast.Is) and not pol_))
+                    for t_, pol_ in _facts_at(f, st)
+                )
+                status, why, nd = _nonneg(corpus, st.value, f, attr, 0, none_ok)
                 if status == "ok":
                     rep.ok("C01.R14", k, f.module.site(st), why)
                 elif status == "bad":
@@ -3053,9 +3098,70 @@ def _transitions_asserts_parent(corpus: Corpus) -> bool:
     return corpus.cache("c01-transitions-assert", compute)
 
 
+def _transitions_hidden_by(corpus: Corpus) -> tuple[str | None, str]:
+    """(name, reason) of a transform of the package that takes every transition whose parent is not the document / a
+    section out of the tree BEFORE docutils' Transitions transform runs, and that both parsers register; else (None, why)."""
+
+    def compute():
+        why = "no transform of the package hides nested transitions from docutils' Transitions transform"
+        for ci in corpus.all_classes():
+            if not any(b.rsplit(".", 1)[-1] == "Transform" for b in ci.bases):
+                continue
+            ap = ci.methods.get("apply")
+            if ap is None:
+                continue
+            # (c) apply(): for every transition of the document with a parent that is not document/section: replace / remove it
+            handles = False
+            for lp in ap.local_nodes():
+                if not (isinstance(lp, ast.For) and isinstance(lp.target, ast.Name)):
+                    continue
+                if not any(isinstance(x, ast.Attribute) and x.attr == "transition" for x in ast.walk(lp.iter)):
+                    continue
+                v = lp.target.id
+                for st in lp.body:
+                    if not isinstance(st, ast.If):
+                        continue
+                    t = st.test
+                    if not (isinstance(t, ast.UnaryOp) and isinstance(t.op, ast.Not) and isinstance(t.operand, ast.Call) and dotted(t.operand.func) == "isinstance" and len(t.operand.args) == 2 and unparse(t.operand.args[0]) == f"{v}.parent"):
+                        continue
+                    tp = t.operand.args[1]
+                    classes = tp.elts if isinstance(tp, ast.Tuple) else ([tp.left, tp.right] if isinstance(tp, ast.BinOp) and isinstance(tp.op, ast.BitOr) else [tp])
+                    if not classes or not all((dotted(c_) or "").rsplit(".", 1)[-1] in ("document", "section") for c_ in classes):
+                        continue
+                    if any(isinstance(c, ast.Call) and isinstance(c.func, ast.Attribute) and ((c.func.attr == "replace_self" and unparse(c.func.value) == v) or (c.func.attr in ("remove", "replace") and unparse(c.func.value) == f"{v}.parent")) for b in st.body for c in ast.walk(b)):
+                        handles = True
+            if not handles:
+                continue
+            # (a) priority below that of docutils' Transitions
+            prio = next((st.value for st in ci.node.body if isinstance(st, ast.Assign) and any(isinstance(t_, ast.Name) and t_.id == "default_priority" for t_ in st.targets)), None)
+            before = (
+                isinstance(prio, ast.BinOp) and isinstance(prio.op, ast.Sub) and isinstance(prio.right, ast.Constant) and isinstance(prio.right.value, int) and prio.right.value > 0
+                and ci.module.resolve(dotted(prio.left) or "").endswith("transforms.misc.Transitions.default_priority")
+            )
+            if not before:
+                why = f"{ci.name} takes nested transitions out of the tree, but its default_priority `{short(prio, 40) if prio is not None else '?'}` does not place it before docutils' Transitions"
+                continue
+            # (b) registered by both parsers
+            missing = []
+            for fq in ("parsers.docutils_:Parser.get_transforms", "parsers.sphinx_:MystParser.get_transforms"):
+                if not corpus.has_func("myst_parser." + fq):
+                    missing.append(fq)
+                    continue
+                gt = corpus.func(fq)
+                if not any(isinstance(x, ast.Name) and x.id == ci.name for r in gt.local_nodes() if isinstance(r, ast.Return) and r.value is not None for x in ast.walk(r.value)):
+                    missing.append(gt.qualname)
+            if missing:
+                why = f"{ci.name} hides nested transitions, but {', '.join(missing)} does not register it"
+                continue
+            return (ci.name, f"{ci.name} (priority {short(prio, 50)}, registered by both parsers) replaces every transition whose parent is not the document / a section before docutils' Transitions runs")
+        return (None, why)
+
+    return corpus.cache("c01-transitions-hidden", compute)
+
+
 @rule("C01.R17")
 def r17_transition_parent(corpus: Corpus, rep: Report, tier: str):
-    rep.rule("C01.R17", "a nodes.transition is attached only to a node that is provably the document or a section (docutils' Transitions transform asserts it)")
+    rep.rule("C01.R17", "a nodes.transition is attached only to a node that is provably the document or a section, or nested transitions are hidden from docutils' Transitions transform (which asserts the parent) by a registered transform that runs before it")
     if not _transitions_asserts_parent(corpus):
         rep.ok("C01.R17", "docutils.transforms.misc:Transitions|parent assertion", "docutils/transforms/misc.py", "this docutils no longer asserts the parent of a transition")
         return
@@ -3101,8 +3207,11 @@ def r17_transition_parent(corpus: Corpus, rep: Report, tier: str):
                         classes = t.args[1].elts if isinstance(t.args[1], ast.Tuple) else ([t.args[1].left, t.args[1].right] if isinstance(t.args[1], ast.BinOp) else [t.args[1]])
                         if classes and all((dotted(c_) or "").rsplit(".", 1)[-1] in ("section", "document") for c_ in classes):
                             ok = True
+            hider, hwhy = _transitions_hidden_by(corpus)
             if ok:
                 rep.ok("C01.R17", k, site, "the parent is the document or a section")
+            elif hider is not None:
+                rep.ok("C01.R17", k, site, hwhy)
             else:
                 rep.violation(
                     "C01.R17",
@@ -3110,7 +3219,7 @@ def r17_transition_parent(corpus: Corpus, rep: Report, tier: str):
                     site,
                     f"a nodes.transition is attached to `{ptxt}`, which can be any element (block quote, list item, admonition ...): when it is the first child of a parent that is "
                     "neither the document nor a section (`> ---`), docutils' Transitions transform (transforms/misc.py) fails its "
-                    "`assert isinstance(node.parent, (document, section))` and the standard transform pipeline aborts with AssertionError",
+                    f"`assert isinstance(node.parent, (document, section))` and the standard transform pipeline aborts with AssertionError ({hwhy})",
                 )
     rep.expect_min("C01.R17", 1, "places where a transition is attached")
 
@@ -3146,9 +3255,12 @@ def mutants(corpus: Corpus):
         out.append(("c01-html-try-dropped", "no try in html_to_nodes"))
     # 2. narrow except Exception in render_substitution
     f = base.func("DocutilsRenderer.render_substitution")
-    h = find_node(f, lambda n: isinstance(n, ast.ExceptHandler) and n.type is not None and unparse(n.type) == "Exception")
+    tr_s = find_node(f, lambda n: isinstance(n, ast.Try) and any(isinstance(c, ast.Call) and isinstance(c.func, ast.Attribute) and c.func.attr in ("from_string", "render") for b in n.body for c in ast.walk(b)))
+    h = next((h_ for h_ in (tr_s.handlers if tr_s is not None else []) if h_.type is not None and unparse(h_.type) == "Exception"), None)
     if h is not None:
         out.append(Mutant("c01-substitution-except-narrowed", "C01.R1", base.rel, splice(base.src, h.type, "jinja2.TemplateSyntaxError"), expect="render_substitution"))
+    else:
+        out.append(("c01-substitution-except-narrowed", "render_substitution: no `except Exception` around the template rendering"))
     # 3. narrow except Exception around fetch_inventory
     f = base.func("DocutilsRenderer.get_inventory_matches")
     h = find_node(f, lambda n: isinstance(n, ast.ExceptHandler) and n.type is not None and unparse(n.type) == "Exception")
@@ -3263,9 +3375,20 @@ def mutants(corpus: Corpus):
         parts = unparse(wth.body[0].value.value)
         names = [unparse(b.targets[0]) for b in wth.body if isinstance(b, ast.Assign)]
         lhs = ", ".join(names)
-        out.append(Mutant("c01-inv-path-padded-unpack", "C01.R1", base.rel, splice(base.src, wth, f"{lhs} = {parts} + [None] * ({len(names)} - len({parts}))"), expect="[None] *", canary=True))
+        # the split that feeds the parts: a maxsplit that already bounds the number of parts is dropped as well
+        # (the padded / weakly guarded unpack is only wrong for an unbounded number of parts)
+        pdef = find_node(f, lambda n: isinstance(n, ast.Assign) and len(n.targets) == 1 and unparse(n.targets[0]) == parts and isinstance(n.value, ast.Call) and isinstance(n.value.func, ast.Attribute) and n.value.func.attr == "split")
+        base_src = base.src
+        if pdef is not None and len(pdef.value.args) == 2 and pdef.lineno > wth.lineno:
+            pdef = None
+        def with_unbounded_split(new_with: str) -> str:
+            src_ = splice(base.src, wth, new_with)  # the with-block comes after the split: splice it first
+            if pdef is not None and len(pdef.value.args) == 2:
+                src_ = splice(src_, pdef.value, f"{unparse(pdef.value.func)}({unparse(pdef.value.args[0])})")
+            return src_
+        out.append(Mutant("c01-inv-path-padded-unpack", "C01.R1", base.rel, with_unbounded_split(f"{lhs} = {parts} + [None] * ({len(names)} - len({parts}))"), expect="[None] *", canary=True))
         out.append(Mutant("c01-inv-path-unpack-unpadded", "C01.R1", base.rel, splice(base.src, wth, f"{lhs} = {parts}[:{len(names)}]"), expect=f"{parts}[:{len(names)}]"))
-        out.append(Mutant("c01-inv-path-len-guard-too-weak", "C01.R1", base.rel, splice(base.src, wth, f"if len({parts}) >= {len(names)}:\n{' ' * wth.col_offset}    {lhs} = {parts}"), expect=f"origin={f.fq}|{parts}"))
+        out.append(Mutant("c01-inv-path-len-guard-too-weak", "C01.R1", base.rel, with_unbounded_split(f"if len({parts}) >= {len(names)}:\n{' ' * wth.col_offset}    {lhs} = {parts}"), expect=f"origin={f.fq}|{parts}"))
     else:
         out.append(("c01-inv-path-padded-unpack", "render_link_inventory no longer indexes the path parts under suppress(IndexError)"))
     wm = corpus.mod("warnings_")
@@ -3421,8 +3544,10 @@ def mutants(corpus: Corpus):
         out.append(("c01-suppress-setting-read-without-default", "create_warning does not read a myst_* setting through getattr"))
     tm2 = corpus.mod("mdit_to_docutils.transforms")
     f = base.func("DocutilsRenderer._render_finalise")
-    stf = find_node(f, lambda n: isinstance(n, ast.Assign) and isinstance(n.targets[0], ast.Attribute) and n.targets[0].attr == "myst_footnote_sort")
-    if stf is not None:
+    stf = find_node(f, lambda n: isinstance(n, ast.Assign) and isinstance(n.targets[0], ast.Attribute) and n.targets[0].attr == "myst_footnote_sort" and _is_settings(n.targets[0].value))
+    if stf is None:
+        pass  # the footnote options are no longer kept on document.settings (they moved to the document itself: R9)
+    elif stf is not None:
         out.append(Mutant("c01-footnote-sort-setting-no-longer-stored", "C01.R16", base.rel, splice(base.src, stf, "pass"), expect="settings.myst_footnote_sort"))
     else:
         out.append(("c01-footnote-sort-setting-no-longer-stored", "_render_finalise does not store myst_footnote_sort"))
@@ -3435,19 +3560,30 @@ def mutants(corpus: Corpus):
         out.append(Mutant("c01-disable-ignore-invalid-false", "C01.R11", mdm_.rel, splice(mdm_.src, dcall.args[1], "False"), expect="unknown names"))
     else:
         out.append(("c01-disable-ignore-invalid-dropped", "create_md_parser does not call md.disable(x, True)"))
-    # --- a transition attached below something that need not be the document / a section (R17) ---
-    tmx = corpus.mod("mdit_to_docutils.transforms")
-    f = tmx.func("CollectFootnotes.apply")
-    aug = find_node(f, lambda n: isinstance(n, ast.AugAssign) and isinstance(n.value, ast.Name) and "transition" in n.value.id)
-    if aug is not None:
-        out.append(Mutant("c01-footnote-transition-into-last-child", "C01.R17", tmx.rel, splice(tmx.src, aug.target, f"{unparse(aug.target)}[-1]"), expect="transition attached to"))
+    # --- the repair of F9 (2ea1b0a, HideNestedTransitions) reverted in three ways (R17) ---
+    hider, _ = _transitions_hidden_by(corpus)
+    if hider is not None:
+        tmx = corpus.mod("mdit_to_docutils.transforms")
+        hci = tmx.classes[hider]
+        for modname, q, tag in (("parsers.docutils_", "Parser.get_transforms", "docutils"), ("parsers.sphinx_", "MystParser.get_transforms", "sphinx")):
+            pm = corpus.mod(modname)
+            gt = pm.func(q)
+            nm_ = find_node(gt, lambda n: isinstance(n, ast.Name) and n.id == hider and isinstance(parent(n), ast.List))
+            if nm_ is not None:
+                lst = parent(nm_)
+                kept = ", ".join(unparse(e) for e in lst.elts if e is not nm_)
+                out.append(Mutant(f"c01-nested-transitions-not-hidden-{tag}", "C01.R17", pm.rel, splice(pm.src, lst, f"[{kept}]"), expect="transition attached to", canary=(tag == "docutils")))
+            else:
+                out.append((f"c01-nested-transitions-not-hidden-{tag}", f"{q} does not list {hider} in a list display"))
+        prio = next((st for st in hci.node.body if isinstance(st, ast.Assign) and any(isinstance(t_, ast.Name) and t_.id == "default_priority" for t_ in st.targets)), None)
+        if prio is not None and isinstance(prio.value, ast.BinOp):
+            out.append(Mutant("c01-nested-transitions-hidden-too-late", "C01.R17", tmx.rel, splice(tmx.src, prio.value, f"{unparse(prio.value.left)} + 1"), expect="transition attached to"))
+        ap = hci.methods["apply"]
+        tst = find_node(ap, lambda n: isinstance(n, ast.If) and isinstance(n.test, ast.UnaryOp) and "isinstance" in unparse(n.test))
+        if tst is not None:
+            out.append(Mutant("c01-nested-transitions-test-inverted", "C01.R17", tmx.rel, splice(tmx.src, tst.test, unparse(tst.test.operand)), expect="transition attached to"))
     else:
-        out.append(("c01-footnote-transition-into-last-child", "CollectFootnotes.apply does not attach its transition with +="))
-    f = base.func("DocutilsRenderer.render_myst_block_break") if corpus.has_func("myst_parser.mdit_to_docutils.base:DocutilsRenderer.render_myst_block_break") else None
-    if f is not None and f.body:
-        last = f.body[-1]
-        ind = " " * last.col_offset
-        out.append(Mutant("c01-block-break-emits-transition", "C01.R17", base.rel, splice(base.src, last, segment_(base.src, last) + f"\n{ind}self.current_node.append(nodes.transition())"), expect="render_myst_block_break|transition attached to"))
+        out.append(("c01-nested-transitions-not-hidden-docutils", "no transform hides nested transitions on this tree"))
     # --- include cycle guard keyed by a path that is not normalised (R4) ---
     f = mk.func("MockIncludeDirective.run")
     npc = find_node(f, lambda n: isinstance(n, ast.Call) and (dotted(n.func) or "").endswith("normpath") and isinstance(parent(n), ast.Assign) and isinstance(parent(n).targets[0], ast.Name))
